@@ -2,8 +2,8 @@ import UmProofs.BrokerScaleDownB
 /-!
 # C10 — the scale-down plan, part C: `remove_slots_from_src_to_scale_down` on a balanced cluster
 -/
-namespace Um.Broker
-open Um Um.Slots
+namespace Um.Broker.Scale
+open Um Um.Slots Um.Broker
 
 theorem sumTo_sub (f g : Nat → Nat) (n : Nat) (h : ∀ i, i < n → g i ≤ f i) :
     sumTo (fun i => f i - g i) n + sumTo g n = sumTo f n := by
@@ -122,11 +122,11 @@ theorem removeSlotsToScaleDown_balanced {cl : Cluster} {n n' : Nat} (e : Nat)
     existingOf (cl.chunks.take n')⟩
   have hfin : ∀ j, downFinalOf P j = quota (n' * 2) j := by
     intro j; simp only [downFinalOf, quota, P, remainder_eq]
-  have hex : ∀ j, j < n' * 2 → P.ex j = quota (n * 2) j := by
+  have hex : ∀ j, j < n' * 2 → (DownParams.ex P) j = quota (n * 2) j := by
     intro j hj
     have := existingOf_get (n * 2) _ 0 hf1 j (by rw [htl]; exact hj)
     simpa [DownParams.ex, P] using this
-  have hok : P.Ok := by
+  have hok : (DownParams.Ok P) := by
     refine ⟨by simp only [P]; rw [existingOf_length, htl], ?_⟩
     intro j hj
     rw [hex j hj, hfin]
@@ -141,9 +141,9 @@ theorem removeSlotsToScaleDown_balanced {cl : Cluster} {n n' : Nat} (e : Nat)
   have hst0 : DStInv P { dstIdx := 0, curSlots := [], curNum := 0, out := [] } := by
     refine ⟨Nat.zero_le _, fun _ => Or.inr rfl, fun _ => ⟨rfl, rfl⟩, fun h => absurd rfl h, ?_⟩
     exact ⟨fun j hj => absurd hj (Nat.not_lt_zero j), by simp, fun j _ => by simp, fun ms hms => by cases hms⟩
-  have hsupply : supplyChunks (cl.chunks.drop n') = P.total := by
+  have hsupply : supplyChunks (cl.chunks.drop n') = (DownParams.total P) := by
     rw [supply_full (n * 2) _ n' hf2, hdl]
-    have h1 : P.total = sumTo (fun j => quota (n' * 2) j - quota (n * 2) j) (n' * 2) := by
+    have h1 : (DownParams.total P) = sumTo (fun j => quota (n' * 2) j - quota (n * 2) j) (n' * 2) := by
       unfold DownParams.total
       apply sumTo_congr
       intro j hj
@@ -160,7 +160,7 @@ theorem removeSlotsToScaleDown_balanced {cl : Cluster} {n n' : Nat} (e : Nat)
   obtain ⟨st', hrun, hpost⟩ := downChunks_spec P hok (by simp only [P]; omega) (cl.chunks.drop n') n' _
     (downSrcOk_full (n * 2) (by omega) _ n' hf2) hst0 rfl
     (by rw [hsupply]; simp [DownParams.given, sumTo])
-  have hgiven : sumTo P.dneed st'.dstIdx + st'.curNum = sumTo P.dneed (n' * 2) := by
+  have hgiven : sumTo (DownParams.dneed P) st'.dstIdx + st'.curNum = sumTo (DownParams.dneed P) (n' * 2) := by
     have := hpost.given
     rw [hsupply] at this
     simpa [DownParams.given, DownParams.total, sumTo, P] using this
@@ -170,12 +170,12 @@ theorem removeSlotsToScaleDown_balanced {cl : Cluster} {n n' : Nat} (e : Nat)
     · exact (hpost.inv.fin hD).1
     · have hlt' : st'.dstIdx < n' * 2 := by omega
       rcases hpost.inv.lt hlt' with h | h
-      · have := sumTo_mono P.dneed (show st'.dstIdx + 1 ≤ n' * 2 by omega)
+      · have := sumTo_mono (DownParams.dneed P) (show st'.dstIdx + 1 ≤ n' * 2 by omega)
         simp only [sumTo] at this
         omega
       · exact h
-  have htail := sumTo_tail_zero P.dneed hle (by omega)
-  have hrecv : ∀ j, j < n' * 2 → recvBy downIndex st'.out j = P.dneed j := by
+  have htail := sumTo_tail_zero (DownParams.dneed P) hle (by omega)
+  have hrecv : ∀ j, j < n' * 2 → recvBy downIndex st'.out j = (DownParams.dneed P) j := by
     intro j hj
     by_cases h1 : j < st'.dstIdx
     · exact hpost.inv.out.done j h1
@@ -208,4 +208,4 @@ theorem removeSlotsToScaleDown_balanced {cl : Cluster} {n n' : Nat} (e : Nat)
     rw [hdl] at this
     exact ⟨⟨j, hj, d1, d2⟩, d3, this.1, by omega, d4, d5⟩
 
-end Um.Broker
+end Um.Broker.Scale
